@@ -717,7 +717,13 @@ func (a *Analysis) store(f *Frame, addr, val ssa.Value, st State) State {
 	switch x := addr.(type) {
 	case *ssa.FieldAddr:
 		fld = fieldOf(x.X.Type(), x.Field)
-		st = a.killField(st, fld)
+		if al := rootAlloc(x.X); al != nil && !al.Heap {
+			// field of a local struct that never escapes: it cannot alias node state
+			st = a.killReg(st, al)
+			fld = nil
+		} else {
+			st = a.killField(st, fld)
+		}
 	case *ssa.Alloc:
 		st = a.killReg(st, x)
 	case *ssa.IndexAddr:
